@@ -442,7 +442,15 @@ func (r resolverQuery) parsePackageJSON(inputPath string) *packageJSON {
 
 				// Wildcard patterns require more expensive matching
 				if hadWildcard {
-					packageJSON.sideEffectsRegexps = append(packageJSON.sideEffectsRegexps, regexp.MustCompile(re))
+					// The pattern can hold bytes that are not valid UTF-8 (a lone
+					// surrogate escape in the JSON string, or a directory name).
+					// The "regexp" package rejects those, so don't use "MustCompile".
+					if compiled, err := regexp.Compile(re); err == nil {
+						packageJSON.sideEffectsRegexps = append(packageJSON.sideEffectsRegexps, compiled)
+					} else {
+						r.log.AddID(logger.MsgID_PackageJSON_InvalidSideEffects, logger.Warning, &tracker, logger.Range{Loc: itemJSON.Loc},
+							"Ignoring invalid pattern in array for \"sideEffects\"")
+					}
 					continue
 				}
 
